@@ -144,10 +144,26 @@ int prop_offsets(Run& run) {
             continue;
         }
         int maxar = 0;
-        // lines follow the policy's method catalog, i.e. registration order
-        for (size_t k = 0; k < r.method_order.size() && !stop; ++k) {
-            int m = r.method_order[k];
+        // each specialisation names its method: vf::key<shape, instance> (the order of the lines is
+        // not part of the property)
+        std::vector<int> line_of(r.methods.size(), -1);
+        for (size_t k = 0; k < lines.size(); ++k) {
+            size_t kp = lines[k].name.find("key<");
+            int S = -1, K = -1;
+            if (kp != std::string::npos)
+                sscanf(lines[k].name.c_str() + kp, "key<%d, %d>", &S, &K);
+            for (size_t m = 0; m < r.methods.size(); ++m)
+                if (r.methods[m].shape == S && r.methods[m].inst == K)
+                    line_of[m] = (int)k;
+        }
+        for (size_t kk = 0; kk < r.method_order.size() && !stop; ++kk) {
+            int m = r.method_order[kk];
             auto& me = r.methods[m];
+            if (line_of[m] < 0) {
+                stop = fail("method-without-specialisation", "method " + std::to_string(m) + " (" + g_shapes[me.shape].sig + ")", "a static_offsets specialisation naming it", "none");
+                break;
+            }
+            size_t k = (size_t)line_of[m];
             auto& ln = lines[k];
             MethodView mv = w->method(r, m);
             size_t ar = me.vp.size();
@@ -192,11 +208,12 @@ int prop_offsets(Run& run) {
                 stop = fail("dispatch-with-generated-offsets-differs", "calls through methods compiled with static offsets", d < (long)expected.rows.size() ? expected.rows[d] : "(missing)", d < (long)got.rows.size() ? got.rows[d] : "(missing)");
             // the debug-build consistency check rejects any other offset
             if (!stop && w->caps().checked) {
-                for (size_t k = 0; k < r.method_order.size() && !stop; ++k) {
-                    int m = r.method_order[k];
+                for (size_t kk = 0; kk < r.method_order.size() && !stop; ++kk) {
+                    int m = r.method_order[kk];
                     auto& me = r.methods[m];
-                    if (!w->has_static_offsets(r, m))
+                    if (!w->has_static_offsets(r, m) || line_of[m] < 0)
                         continue;
+                    size_t k = (size_t)line_of[m];
                     std::vector<std::vector<int>> tuples;
                     enum_tuples(rng, r, o, me, 8, tuples);
                     if (tuples.empty())
